@@ -433,11 +433,13 @@ def Event.terminating : Event → Bool
   | .exception _ => true
   | _ => false
 
-/-- how an observation has to end, as the property states it: `NotObservable` when already the
-first event is terminating; otherwise, at the first terminating event, the transport's exception
-or `ObservationCancelled`; otherwise not at all -/
+/-- how an observation has to end, as the property states it: with the network error when already
+the initial request fails in the transport; as `NotObservable` when the first response carries no
+Observe option (or is marked last); otherwise, at the first terminating event, the transport's
+exception or `ObservationCancelled`; otherwise not at all -/
 def expectedEnd : List Event → List ErrKind
   | [] => []
+  | .exception k :: _ => [.transport k]
   | e :: rest =>
     if e.terminating then [.notObservable] else
     match rest.find? Event.terminating with
@@ -465,7 +467,7 @@ theorem step_errbacks (cfg : Cfg) (s : ObsState) (e : TEvent) :
     | exception k =>
       cases ho : cfg.observe
       · left; simp [step, stepFirst, ho]
-      · right; exact ⟨.notObservable, by simp [step, stepFirst, ho], by simp [step, stepFirst]⟩
+      · right; exact ⟨.transport k, by simp [step, stepFirst, ho], by simp [step, stepFirst]⟩
     | obsCancel => left; simp [step, stepFirst]
     | respCancel => left; simp [step, stepFirst]
   | observing v1 t1 =>
@@ -549,11 +551,11 @@ theorem ends_observing (cfg : Cfg) (es : List TEvent) (v1 t1 : Nat)
 
 /-- **C07 (the observation ends exactly once, and as the property says).** For an observing
 request and every history of pipe events: the sequence of termination signals is exactly
-`expectedEnd` — `NotObservable`, once, iff the first event is a response without Observe option
-(or marked last, or an exception: then the response future fails as well); otherwise nothing until
-the first terminating event, and at that event exactly one signal: the transport's exception, or
-`ObservationCancelled` for a response without Observe option (or marked last); none if no
-terminating event arrives. -/
+`expectedEnd` — the transport's exception, once, if already the first event is an exception (the
+response future fails with it as well); `NotObservable`, once, iff the first event is a response
+without Observe option (or marked last); otherwise nothing until the first terminating event, and
+at that event exactly one signal: the transport's exception, or `ObservationCancelled` for a
+response without Observe option (or marked last); none if no terminating event arrives. -/
 theorem C07_ends_exactly_once (cfg : Cfg) (hobs : cfg.observe = true) (es : List TEvent)
     (hp : ∀ e ∈ es, e.ev.isPipe = true) :
     errbacks (deliveries cfg .awaitingFirst es) = expectedEnd (es.map (·.ev)) := by
@@ -563,9 +565,10 @@ theorem C07_ends_exactly_once (cfg : Cfg) (hobs : cfg.observe = true) (es : List
     have hrest : ∀ e' ∈ es, e'.ev.isPipe = true := fun e' he' => hp e' (List.mem_cons_of_mem _ he')
     have hpe := hp e List.mem_cons_self
     obtain ⟨t, ev⟩ := e
-    rw [deliveries_cons, errbacks_append, List.map_cons, expectedEnd]
+    rw [deliveries_cons, errbacks_append, List.map_cons]
     cases ev with
     | message m last =>
+      simp only [expectedEnd]
       cases hl : last
       · cases hv : m.obs with
         | none =>
@@ -583,8 +586,7 @@ theorem C07_ends_exactly_once (cfg : Cfg) (hobs : cfg.observe = true) (es : List
         rw [over_deliveries (by simp [step, stepFirst, hobs, Over])]
         simp [step, stepFirst, hobs]
     | exception k =>
-      have : Event.terminating (.exception k) = true := rfl
-      simp only [this, ↓reduceIte]
+      simp only [expectedEnd]
       rw [over_deliveries (by simp [step, stepFirst, Over])]
       simp [step, stepFirst, hobs]
     | obsCancel => simp [Event.isPipe] at hpe
